@@ -17,7 +17,7 @@ from sa.flow import Interp
 RESOLVER = "lowlevel.api_async.backend._common.dns_resolver:BaseAsyncDNSResolver"
 
 CLAIM = {
-    "text": "Decides, on every path of every socket-creating function (normal return, OSError, any other Exception, cancellation at any await, any other BaseException), that each created or received socket is closed, returned, or transferred to the single winner slot under an emptiness test; that the slot's owner closes a stored winner on every exit that does not return it; that the race returns only the slot and cancels the remaining attempts on the first success. This is the whole all-paths ownership content of the property; it is decided for all completion orders at once because other tasks can only run at suspension points, which the rule quantifies over. Also decided: the resolved remote and local address lists reach the implementation unchanged from the public entry points (every binding is ensure_resolved() or None); the list the race loop iterates over is derived from the resolved address list through element-preserving transformations only and one attempt is started per element; the pending connector stays registered in the client while the race is awaited, so aclose() can cancel it; the race winner handed to AsyncTLSStreamTransport.wrap is closed on every exception exit including cancellation (ownership typestate of C14). wrap_stream_socket() runs no check that can raise for a network reason before the event loop takes the race winner over; the blocking client's constructor closes the connected socket when its remaining steps fail.",
+    "text": "Decides, on every path of every socket-creating function (normal return, OSError, any other Exception, cancellation at any await, any other BaseException), that each created or received socket is closed, returned, or transferred to the single winner slot under an emptiness test; that the slot's owner closes a stored winner on every exit that does not return it; that the race returns only the slot and cancels the remaining attempts on the first success. This is the whole all-paths ownership content of the property; it is decided for all completion orders at once because other tasks can only run at suspension points, which the rule quantifies over. Also decided: the resolved remote and local address lists reach the implementation unchanged from the public entry points (every binding is ensure_resolved() or None); the list the race loop iterates over is derived from the resolved address list through element-preserving transformations only and one attempt is started per element; the pending connector stays registered in the client while the race is awaited, so aclose() can cancel it; the race winner handed to AsyncTLSStreamTransport.wrap is closed on every exception exit including cancellation (ownership typestate of C14). wrap_stream_socket() runs no check that can raise for a network reason before the event loop takes the race winner over; the blocking client's constructor closes the connected socket when its remaining steps fail. Round 4: every iteration of the sequential attempt loop returns the socket or records an OSError before moving on; the adapter built around the loop's transport makes no socket system call in its constructor.",
     "note": "Trusted: close() releases the descriptor; list/set/Event operations and exception constructors do not raise (sa/tables.py); cancellation is only delivered at await / async with / async for. Not decided: which attempt wins; OS-level release.",
     "technique": "ownership typestate by abstract interpretation over an exception-aware structured CFG (ast), with an exception-class lattice; winner-slot may-be-full analysis over suspension points",
 }
@@ -79,6 +79,8 @@ def _exit_stmt(fn, trace, default):
 
 
 def run(eng, run):
+    from sa.anchors import verify as _verify_anchor_names
+    _verify_anchor_names(eng, run)
     db = eng.db
     run.not_decided += NOT_DECIDED
     run.assumptions += [
@@ -176,6 +178,7 @@ def run(eng, run):
         n_inst += 1
     run.floor("C19.own instances", n_inst, 6)
     check_all_attempted(eng, run, race, tc)
+    check_every_address_accounted(eng, run, impl)
     check_entry_lists(eng, run, resolver)
     check_registered(eng, run)
     check_winner_handoff(eng, run)
@@ -232,6 +235,62 @@ def check_entry_lists(eng, run, resolver):
     run.floor("C19.all entry-point address lists", n, 4)
 
 
+def check_every_address_accounted(eng, run, impl):
+    """the sequential attempt loop of _create_connection_impl(): every iteration that does not return the socket records an OSError
+    before it moves on (`continue` / end of body) - the final report (`ExceptionGroup(..., errors)`) then never meets an empty list;
+    an address that is skipped silently makes the function end in a non-OSError (assert / ValueError) that the race does not
+    absorb: it cancels the sibling attempts although one of them would have succeeded"""
+    from sa.analyses.base import RuleAnalysis
+    from sa.flow import Interp as _I
+
+    # the list handed to the final ExceptionGroup
+    errs = {a.id for r in own_nodes(impl.node) if isinstance(r, ast.Raise) and isinstance(r.exc, ast.Call) and "ExceptionGroup" in (dotted(r.exc.func) or "")
+            for a in r.exc.args if isinstance(a, ast.Name)}
+    loops = [x for x in impl.node.body if isinstance(x, ast.For)]
+    if len(errs) != 1 or not loops:
+        raise AnalysisError("anchor vanished: error list / attempt loop of _create_connection_impl")
+    ev = next(iter(errs))
+
+    class Rec(RuleAnalysis):
+        tokens = ("OSError",)
+
+        def initial(self, f):
+            return [False]
+
+        def may_raise(self, node, fact):
+            c = node.value if isinstance(node, ast.Await) else node
+            if isinstance(c, ast.Call) and isinstance(c.func, ast.Attribute) and dotted(c.func.value) in (ev, "bind_errors"):
+                return []
+            if isinstance(c, ast.Call) and (dotted(c.func) or "").split(".")[-1] in ("OSError", "len", "with_traceback", "lower"):
+                return []
+            return ["OSError"] if isinstance(node, (ast.Call, ast.Await, ast.Raise)) else []
+
+        def transfer(self, node, fact):
+            if isinstance(node, ast.Call) and isinstance(node.func, ast.Attribute) and node.func.attr in ("append", "extend") and dotted(node.func.value) == ev:
+                return [True]
+            if isinstance(node, ast.Call) and isinstance(node.func, ast.Attribute) and node.func.attr == "clear" and dotted(node.func.value) == ev:
+                return [False]
+            return [fact]
+
+    lp = loops[0]
+    an = Rec(eng)
+    it = _I(an, impl)
+    an.fn = impl
+    out = it.exec_block(lp.body, {False: ()})
+    silent = [tr for f, tr in list(out.cont.items()) + list(out.normal.items()) if f is False]
+    for tr in silent[:1]:
+        run.finding("C19.all", impl, _stmt_at(impl, tr[-1]) if tr else lp, "an address is skipped without recording an OSError for it: when every address is skipped the function ends in an assertion / ValueError instead of an "
+                    "OSError group, which the staggered race does not absorb - it cancels the other attempts although one of them may be succeeding", tr)
+    run.ob("C19.all", f"{impl.short}:every-iteration-returns-or-records-an-error", not silent, continues=len(out.cont), error_list=ev)
+
+
+def _inside_lambda(root, node):
+    for lam in ast.walk(root):
+        if isinstance(lam, ast.Lambda) and any(x is node for x in ast.walk(lam)):
+            return True
+    return False
+
+
 def check_winner_handoff(eng, run):
     """the race winner is handed from create_tcp_connection() to wrap_stream_socket() with no clean-up around the call: between its
     entry and the point where the event loop takes the socket over (which closes it on failure) wrap_stream_socket() runs no check
@@ -264,6 +323,25 @@ def check_winner_handoff(eng, run):
             run.finding("C19.own", wss, _stmt_at(wss, c.lineno), f"`{ast.unparse(c)[:60]}` can raise for a network reason (the peer reset the connection) while this function is the only owner of the "
                         "race winner: the socket is neither returned nor closed")
         run.ob("C19.own", f"{ci.name}.wrap_stream_socket:no-failable-check-before-the-hand-off", not bad)
+        # ... and after the hand-off: the adapter built around the loop's transport makes no socket system call in its constructor that
+        # can fail once the peer has reset the connection (nothing closes the transport if the constructor raises)
+        SYSCALLS = {"getpeername", "getsockopt", "setsockopt", "recv", "send", "shutdown", "getsockname", "recv_into", "sendall"}
+        for ret in [r for r in own_nodes(wss.node) if isinstance(r, ast.Return) and isinstance(r.value, ast.Call)]:
+            for t in eng.typer.call_targets(wss, ret.value):
+                init = t if hasattr(t, "node") and not isinstance(t, str) and getattr(t, "name", "") == "__init__" else None
+                if init is None and hasattr(t, "find_method"):
+                    init = t.find_method("__init__")
+                if init is None or isinstance(init.node, ast.Lambda):
+                    continue
+                socks = {tg.id for a in own_nodes(init.node) if isinstance(a, (ast.Assign, ast.AnnAssign)) and a.value is not None
+                         and any(isinstance(c, ast.Constant) and c.value == "socket" for c in ast.walk(a.value))
+                         for tg in (a.targets if isinstance(a, ast.Assign) else [a.target]) if isinstance(tg, ast.Name)}
+                direct = [c for c in own_nodes(init.node) if isinstance(c, ast.Call) and isinstance(c.func, ast.Attribute) and c.func.attr in SYSCALLS
+                          and isinstance(c.func.value, ast.Name) and c.func.value.id in socks and not _inside_lambda(init.node, c)]
+                for c in direct[:1]:
+                    run.finding("C19.own", init, _stmt_at(init, c.lineno), f"`{ast.unparse(c)[:50]}` is a socket system call made in the adapter's constructor, after the event loop took the race winner over: if the peer "
+                                "has already reset the connection it raises, the constructor fails and nothing closes the transport - the winning socket stays open, owned by nobody")
+                run.ob("C19.own", f"{init.short}:no-socket-syscall-in-constructor", not direct, socket_locals=sorted(socks))
     run.floor("C19.own backends handing the race winner to wrap_stream_socket", n, 1)
 
 
